@@ -106,7 +106,7 @@ def make_frame(rng, saturated=False):
     if weights and rng.random() < 0.5:
         # the unit of a weights column is arbitrary (normalised to sum to one, sampling fractions per million, ...):
         # every estimating equation is homogeneous in it
-        wunit = rng.choice([1e-3, 1.0 / float(df['wt'].sum()), 1e3])      # (1e-6 makes statsmodels' absolute deviance tolerance stop the propensity fit early)
+        wunit = rng.choice([1e-6, 1e-3, 1.0 / float(df['wt'].sum()), 1e3])
         df['wt'] = df['wt'] * wunit
     idx = rng.choice(['range', 'shift', 'shuffle'])
     if idx == 'shift':
@@ -513,7 +513,11 @@ def check_one(ctx, fails, df, meta, f, mods, cl, searches, pay, r):
         fails.append((n, 'GEstimationSNM.psi_labels', '%s: psi_labels=%r, expected %r' % (cfg, cl['labels'], want_labels), pay))
     # oracle: the exposure GLM solves its weighted score equations
     ctx.oracle_checks += 1
-    if cl['score_rel'] > 1e-6:
+    if meta.get('wunit', 1.0) < 1e-4:
+        # weights in micro-units: statsmodels stops the propensity fit on an ABSOLUTE deviance tolerance, i.e. early; the root
+        # property below is relative to whatever Pr(A=1|L) was fitted, so the case is still judged -- only this oracle is skipped
+        ctx.count('exposure-model score oracle skipped (micro-unit weights)')
+    elif cl['score_rel'] > 1e-6:
         fails.append((n, 'oracle.exposure-model.score', '%s: weighted score of the fitted exposure model is %g relative' % (cfg, cl['score_rel']), pay))
     # correspondence: lhm / rha of the code are the model's M / r on the same rows and fitted pi
     mscale = float(np.max(np.abs(cl['lhm']))) if cl['lhm'] else 1.0
